@@ -34,7 +34,8 @@ def run(ctx):
     ctx.assumptions = ["requests carry sorted tags (API precondition)",
                        "Public Suffix List answers are environment inputs; the abstract PSL of the model is checked against "
                        "golang.org/x/net/publicsuffix on every host used",
-                       "derived request fields (hostname, third-party) are C17's subject: forced to the case's values here"]
+                       "derived request fields (hostname, third-party) are C17's subject; here a request whose real third-party flag or "
+                       "hostnames differ from what Request.tla derives is reported once per request, then forced to the case's values"]
     ctx.build()
     quick = ctx.tier == "quick"
     r = ctx.tlc("MC_Rule", CFG % ((2, 4) if quick else (3, 7)), timeout=1500)
@@ -56,10 +57,10 @@ def run(ctx):
         seen.add(key)
         what = "rule %r on %s: spec says %s, code says %s%s" % (
             m["rule_text"], m["request"], m["expected"], m["got"], (" (panic %s)" % m["panic"]) if m.get("panic") else "")
-        ctx.report(what, {"reexec": ["replay-rule"], "input": [{"kind": "REQS", "reqs": [m["req"]]},
-                                                                  {"kind": "ROW", "fam": m["fam"], "rule": m["rule"],
-                                                                   "exp": [1 if m["expected"] else 0]}]},
-                   {"cause": m["cause"]})
+        inp = [{"kind": "REQS", "reqs": [m["req"]]}]
+        if m["cause"] != "request-derivation":
+            inp.append({"kind": "ROW", "fam": m["fam"], "rule": m["rule"], "exp": [1 if m["expected"] else 0]})
+        ctx.report(what, {"reexec": ["replay-rule"], "input": inp}, {"cause": m["cause"]})
     ctx.exhaustive = True
 
     # ---- rule TEXT level: syntax trees folded by RuleText!Meaning, rendered literally ----
@@ -106,6 +107,19 @@ def run(ctx):
         events = vf.read_ndjson(trace)
         for rj in rejects[:200]:
             e = events[rj["l"] - 1]
+            if isinstance(rj["spec"], dict):
+                # the logged third-party flag is not the one Request.tla derives: rebuild the request with the derived
+                # value stated and let the real constructor disagree again
+                req2 = dict(e["req"])
+                req2["thirdParty"] = rj["spec"]["thirdParty"]
+                inp = [{"kind": "REQS", "reqs": [req2]}]
+                s2, mm2 = replay_rows(ctx, inp, variants=1)
+                mm2 = [m for m in mm2 if m["cause"] == "request-derivation"]
+                if not mm2:
+                    raise vf.Inconclusive("third-party rejection of event %d did not reproduce: %s" % (rj["l"], e["text"]))
+                ctx.report("request %s: third-party flag: spec says %s, code says %s" % (mm2[0]["request"], mm2[0]["expected"], mm2[0]["got"]),
+                           {"reexec": ["replay-rule"], "input": inp}, {"cause": "request-derivation"})
+                continue
             # re-execute exactly this event from its abstract form against the real code
             s2, mm2 = replay_rows(ctx, [{"kind": "REQS", "reqs": [e["req"]]},
                                         {"kind": "ROW", "fam": ["trace"], "rule": e["rule"],
